@@ -332,6 +332,89 @@ def table_load_stage(work, rep, ev, tier, cfg, tools=None):
     return n
 
 
+def comp_opts_hostile_stage(work, rep, ev, tier, tools):
+    """spec/CompOpts.tla, reader side: hostile option records (field classes of gzip / xz / lz4 / zstd + header faults) on the real read_options
+    (ASan) and, planted in a real image, on the tools: refused or taken as the model says, never a memory error; a taken record leaves the
+    configuration the record states."""
+    import compopt_bind
+    mc = compopt_bind.model_check(work, ev, 1)
+    if mc is None:
+        return None
+    _, hostile = mc
+    if len(hostile) < 100:
+        print("SELF-CHECK-FAILED: CompOpts emitted %d hostile records" % len(hostile))
+        return None
+    read = compopt_bind.reader(work, "c05")
+    jobs = []
+    for h in hostile:
+        r = h["r"]
+        b = compopt_bind.encode(r)
+        jobs.append((r, h["ok"], b, "fields"))
+        if h["ok"]:
+            jobs.append((r, False, struct.pack("<H", 0x8000 | (len(b) - 1)) + b[2:], "header-size"))        # header states another size
+            jobs.append((r, False, struct.pack("<H", len(b) - 2) + b[2:], "header-compressed-bit"))
+    # planted in a real image of that compressor (the tools must survive whatever they make of it)
+    base = {}
+    os.makedirs(work + "/coh/t", exist_ok=True)
+    open(work + "/coh/t/f", "wb").write(b"some content\n" * 3000)
+    for comp, x in (("gzip", "level=3"), ("xz", "x86"), ("lz4", "hc"), ("zstd", "level=3")):
+        img = "%s/coh/%s.sqfs" % (work, comp)
+        rc, o, e = sh([tools + "/gensquashfs", "-q", "-f", "-c", comp, "-X", x, "-D", work + "/coh/t", img], timeout=60)
+        if rc:
+            raise RuntimeError("cannot pack base image for %s: %s" % (comp, e[-200:]))
+        base[comp] = open(img, "rb").read()
+
+    def do(j):
+        r, ok, b, how = jobs[j]
+        comp = r["kind"]
+        res = read(comp, 131072, b, j)
+        out = []
+        if res.get("crash"):
+            out.append(("compopt-memory-error", "read_options(%s) on record %s: %s" % (comp, b.hex(), res["crash"][-200:])))
+        elif res.get("create"):
+            out.append(("harness", "cannot create %s" % comp))
+        else:
+            if (res["read"] == 0) != ok:
+                out.append(("compopt-record-judged", "read_options(%s) on record %s (%s, %s): %s, the specification says %s"
+                            % (comp, b.hex(), r, how, "accepted" if res["read"] == 0 else "refused (%d)" % res["read"], "accept" if ok else "refuse")))
+            elif ok and how == "fields":
+                if comp == "gzip" and (res["level"], res["window"], res["flags"]) != (r["level"], r["window"], compopt_bind.bits(r["flags"])):
+                    out.append(("compopt-config", "read_options(gzip) on %s leaves %s" % (r, res)))
+                if comp == "xz" and (res["dict"], res["flags"]) != (r["dict"], compopt_bind.bits(r["flags"])):
+                    out.append(("compopt-config", "read_options(xz) on %s leaves %s" % (r, res)))
+        raw = bytearray(base[comp])
+        if len(b) == sqfsimg.SqfsImage(bytes(raw)).data_start - 96:
+            raw[96:96 + len(b)] = b
+            p = "%s/coh/h%d.sqfs" % (work, j)
+            open(p, "wb").write(raw)
+            for inv in (["rdsquashfs", "-c", "f", p], ["sqfs2tar", p], ["sqfsdiff", "-a", p, "-b", p]):
+                rc, o, e = sh([tools + "/" + inv[0]] + inv[1:], timeout=20)
+                if rc < 0 or rc == 124 or b"ERROR: AddressSanitizer" in e:
+                    out.append(("reader-%s-compopt" % inv[0], "%s on an image with the option record %s: %s" % (inv[0], b.hex(), "hang" if rc == 124 else e.decode(errors="replace")[-200:] or "signal %d" % -rc)))
+            os.unlink(p)
+        return out
+    n, seen, drift = 0, set(), []
+    with ThreadPoolExecutor(16) as ex:
+        for outs in ex.map(do, range(len(jobs))):
+            n += 1
+            for kind, what in outs:
+                if kind == "harness":
+                    raise RuntimeError(what)
+                if kind in ("compopt-record-judged", "compopt-config"):
+                    # which records the reader takes is the model's description of the code, not part of C05 (terminate, no memory error)
+                    if kind not in seen:
+                        print("SPEC-DRIFT (no alarm): %s" % what)
+                    seen.add(kind)
+                    drift.append(what)
+                    continue
+                if kind not in seen:
+                    seen.add(kind)
+                    rep.violation(kind, what)
+    ev.set("hostile_option_records", n)
+    ev.set("option_record_drift", drift[:5])
+    return n
+
+
 def run(tier):
     ev = Evidence(PID, tier, "exploration")
     rep = Reporter(PID, ev)
@@ -456,6 +539,11 @@ def run(tier):
         ev.write()
         return 2
     evaluations += tn
+    hn = comp_opts_hostile_stage(work, rep, ev, tier, tools)
+    if hn is None:
+        ev.write()
+        return 2
+    evaluations += hn
     ev.set("evaluations", evaluations)
     ev.set("distinct_nontrivial", len(outcomes) + nflip)
     ev.set("rule", "structured: every plan with one corrupted field and %s plans with two (of %d), each encoded as an image and given to 9 tool invocations; "
